@@ -18,7 +18,7 @@
 
 use num_bigint::BigInt;
 use soroban_sdk::testutils::Address as _;
-use soroban_sdk::xdr::ScVal;
+use soroban_sdk::xdr::{ScAddress, ScVal};
 use soroban_sdk::{Address, Env, IntoVal, String as SString, TryFromVal, Val, Vec as SVec};
 use vh::auth::{call_mocked, view, CallErr};
 use vh::cli::{main_with, Runner};
@@ -148,6 +148,8 @@ struct VaultW {
     offset: u32,
     /// narrow alphabet (long interleavings) instead of the full one
     deep: bool,
+    /// wide alphabet only: operator/receiver variants also with amount 1 resp. {1, 10^o+1}
+    full: bool,
     /// which seed states this world starts from
     seeds: &'static [usize],
     tag: &'static str,
@@ -158,6 +160,18 @@ struct Inst {
     vault: Address,
     asset: Address,
     p: [Address; NP],
+    /// a contract without code or state of its own: round-trip probes run as its
+    /// sub-invocations inside one frame that is rolled back afterwards
+    prober: Address,
+}
+
+/// what a rolled-back round trip observed
+struct Trip {
+    v1: i128,
+    a2: i128,
+    r2: Result<i128, CallErr>,
+    asset_after: Result<i128, CallErr>,
+    share_after: Result<i128, CallErr>,
 }
 
 fn i128_of(e: &Env, v: Val) -> Option<i128> {
@@ -274,8 +288,9 @@ impl VaultW {
                 Ok(Some(v))
             }
             Err(err) => {
+                let (st, at) = self.totals(o);
                 ensure!(
-                    !fits(exact),
+                    !fits(exact) || !fits(&st) || !fits(&at),
                     "conversion-fails-only-on-overflow",
                     "{getter}({x}) failed with {err:?} although the exact value {exact} fits i128 (total assets {}, total shares {}, offset {})",
                     o.asset[V],
@@ -406,14 +421,8 @@ impl VaultW {
             Op::Donate { a } => self.donate(i, *a),
             Op::Sweep => false,
             Op::RoundTrip { user, shape, a } => {
-                let (f1, f2) = shape.legs();
-                match self.call(i, f1, *user, *user, *user, *a) {
-                    Ok(v1) => {
-                        let _ = self.call(i, f2, *user, *user, *user, Self::second_amount(*shape, *a, v1));
-                        true
-                    }
-                    Err(_) => false,
-                }
+                let _ = self.trip(i, *user, *shape, *a);
+                false
             }
         }
     }
@@ -644,15 +653,53 @@ impl VaultW {
         Ok(true)
     }
 
+    /// `user` performs the two legs of `shape` as consecutive calls; whatever happens is rolled
+    /// back, so that every probe starts from exactly the reached state (and costs no rebuild).
+    /// Mechanism: the calls are sub-invocations of a test frame of the `prober` contract whose
+    /// closure finally reports an error; the host rolls a failed frame back completely (the
+    /// engine re-checks this: the storage digest must be unchanged). Results are carried out in
+    /// Rust variables. `None` = the first leg was refused.
+    fn trip(&self, i: &Inst, u: usize, shape: Shape, a: i128) -> Option<Trip> {
+        let e = &i.e;
+        let (f1, f2) = shape.legs();
+        e.mock_all_auths_allowing_non_root_auth();
+        let id = match vh::auth::sc(&i.prober) {
+            ScAddress::Contract(c) => c,
+            _ => unreachable!(),
+        };
+        let mut out: Option<Trip> = None;
+        let leg = |f: F, x: i128| -> Result<i128, CallErr> {
+            view(e, &i.vault, f.name(), self.args(i, x, u, u, u)).and_then(|v| i128_of(e, v).ok_or(CallErr::Other("return value is not an i128".into())))
+        };
+        let res = e.host().with_test_contract_frame(id, soroban_env_host::Symbol::try_from_small_str("probe").expect("symbol"), || {
+            if let Ok(v1) = leg(f1, a) {
+                let a2 = Self::second_amount(shape, a, v1);
+                let r2 = leg(f2, a2);
+                out = Some(Trip {
+                    v1,
+                    a2,
+                    r2,
+                    asset_after: self.geti(i, &i.asset, "balance", (i.p[u].clone(),).into_val(e)),
+                    share_after: self.geti(i, &i.vault, "balance", (i.p[u].clone(),).into_val(e)),
+                });
+            }
+            Err(soroban_env_host::HostError::from(soroban_env_host::Error::from_contract_error(0xC05)))
+        });
+        assert!(res.is_err(), "probe frame must fail in order to be rolled back");
+        out
+    }
+
     fn step_roundtrip(&self, i: &mut Inst, m: &mut Model, op: &Op, cx: &mut StepCtx<Self>) -> Result<bool, Violation> {
         let Op::RoundTrip { user, shape, a } = op.clone() else { unreachable!() };
         let u = user;
-        let (f1, f2) = shape.legs();
-        let Ok(v1) = self.call(i, f1, u, u, u, a) else { return Ok(false) };
-        let a2 = Self::second_amount(shape, a, v1);
-        let r2 = self.call(i, f2, u, u, u, a2);
-        cx.stats.count(if r2.is_ok() { "roundtrip-second-leg-accepted" } else { "roundtrip-second-leg-refused" }, 1);
-        if let Ok(v2) = r2 {
+        let Some(t) = self.trip(i, u, shape, a) else {
+            cx.stats.count(&format!("roundtrip.{shape:?} first leg refused"), 1);
+            return Ok(false);
+        };
+        let (v1, a2) = (t.v1, t.a2);
+        cx.stats.count(&format!("roundtrip.{shape:?} executed"), 1);
+        cx.stats.count(if t.r2.is_ok() { "roundtrip-second-leg-accepted" } else { "roundtrip-second-leg-refused" }, 1);
+        if let Ok(v2) = t.r2 {
             // (what the statement calls "take out" vs "put in", per shape)
             let (ok, what) = match shape {
                 Shape::DR => (v2 <= a, format!("deposited {a} assets for {v1} shares, redeemed them for {v2} assets")),
@@ -667,8 +714,8 @@ impl VaultW {
             ensure!(ok, "round-trip-no-profit", "{} {what} (state before: total assets {}, total shares {}, offset {})", NAMES[u], m.obs.asset[V], m.obs.supply, self.offset);
         }
         // observed balances: never weakly better in both and strictly better in one
-        let asset_after = self.must(i, &i.asset, "balance", (i.p[u].clone(),).into_val(&i.e))?;
-        let share_after = self.must(i, &i.vault, "balance", (i.p[u].clone(),).into_val(&i.e))?;
+        let asset_after = t.asset_after.map_err(|x| Violation::new("getter", format!("asset balance: {x:?}")))?;
+        let share_after = t.share_after.map_err(|x| Violation::new("getter", format!("share balance: {x:?}")))?;
         let (da, ds) = (big(asset_after) - big(m.obs.asset[u]), big(share_after) - big(m.obs.share[u]));
         let zero = big(0);
         ensure!(
@@ -682,7 +729,8 @@ impl VaultW {
             self.offset
         );
         cx.stats.count("roundtrip-balance-checks", 1);
-        Ok(true)
+        // rolled back: the state is the one before the probe
+        Ok(false)
     }
 }
 
@@ -712,17 +760,21 @@ impl World for VaultW {
         let asset = e.register(tokens::BaseTok, ());
         let vault = e.register(vault_example::ExampleContract, (SString::from_str(&e, "n"), SString::from_str(&e, "s"), asset.clone(), self.offset));
         let [u1, u2, d] = p;
-        let inst = Inst { e, vault: vault.clone(), asset, p: [u1, u2, d, vault] };
+        let prober = Address::generate(&e);
+        vh::auth::back(&e, &prober);
+        let inst = Inst { e, vault: vault.clone(), asset, p: [u1, u2, d, vault], prober };
         let e = &inst.e;
         let pw = self.pow();
         let k = self.big_k();
         let small = 4 * pw + 100;
         let (fund, a_allow, s_allow) = if seed == 2 { ((1i128 << k) + small, 1i128 << 120, 1i128 << 120) } else { (small, 20, 20 * pw) };
+        // (the narrow alphabet has no operator != owner calls: no allowances needed there)
+        let pairs: &[(usize, usize)] = if self.deep { &[] } else { &[(0, 1), (1, 0)] };
         for x in [0, 1, D] {
             call_mocked(e, &inst.asset, "mint", (inst.p[x].clone(), fund).into_val(e)).expect("fund");
         }
         let live = envx::now(e) + 1000;
-        for (a, b) in [(0usize, 1usize), (1, 0)] {
+        for &(a, b) in pairs {
             call_mocked(e, &inst.asset, "approve", (inst.p[a].clone(), inst.p[b].clone(), a_allow, live).into_val(e)).expect("asset approve");
             call_mocked(e, &inst.vault, "approve", (inst.p[a].clone(), inst.p[b].clone(), s_allow, live).into_val(e)).expect("share approve");
         }
@@ -765,6 +817,11 @@ impl World for VaultW {
             for user in 0..U {
                 let (mw, mr) = mx[user];
                 for shape in SHAPES {
+                    // paying in first does not depend on who does it (only on the totals):
+                    // U1 only; taking out first depends on the holder: both users
+                    if shape.legs().0.inbound() && user != 0 {
+                        continue;
+                    }
                     let a = match shape.legs().0 {
                         F::Deposit => 7,
                         F::Mint => pw1,
@@ -799,11 +856,17 @@ impl World for VaultW {
             let (mw, mr) = mx[owner];
             for (operator, receiver) in [(other, owner), (owner, other), (other, other)] {
                 for f in FS {
-                    let am = match f {
-                        F::Deposit | F::Mint => vec![1, 7, pw1],
-                        F::Withdraw => vec![1, mw, mw.saturating_add(1)],
-                        F::Redeem => vec![1, mr, mr.saturating_add(1)],
+                    let mut am = match f {
+                        F::Deposit | F::Mint => vec![7],
+                        F::Withdraw => vec![mw, mw.saturating_add(1)],
+                        F::Redeem => vec![mr, mr.saturating_add(1)],
                     };
+                    if self.full {
+                        am.push(1);
+                        if f.inbound() {
+                            am.push(pw1);
+                        }
+                    }
                     for a in dedup(am) {
                         v.push(Op::Call { f, owner, operator, receiver, a });
                     }
@@ -873,55 +936,30 @@ impl World for VaultW {
 const SMALL: &[usize] = &[0, 1];
 const HUGE: &[usize] = &[2];
 
-fn timing() {
-    let w = VaultW { offset: 3, deep: true, seeds: SMALL, tag: "t" };
-    let t = std::time::Instant::now();
-    for _ in 0..300 { let _ = w.fresh(0); }
-    eprintln!("fresh: {:?}/call", t.elapsed() / 300);
-    let (i, _m) = w.fresh(0);
-    let t = std::time::Instant::now();
-    for _ in 0..300 { let _ = w.observe(&i); }
-    eprintln!("observe: {:?}/call", t.elapsed() / 300);
-    let t = std::time::Instant::now();
-    for _ in 0..3000 { let _ = w.geti(&i, &i.vault, "total_supply", SVec::new(&i.e)); }
-    eprintln!("view total_supply: {:?}/call", t.elapsed() / 3000);
-    let t = std::time::Instant::now();
-    for _ in 0..3000 { let _ = w.geti(&i, &i.vault, "preview_deposit", (5i128,).into_val(&i.e)); }
-    eprintln!("view preview_deposit: {:?}/call", t.elapsed() / 3000);
-    let t = std::time::Instant::now();
-    for _ in 0..1000 { let _ = w.call(&i, F::Deposit, 0, 0, 0, 1); }
-    eprintln!("deposit ok: {:?}/call", t.elapsed() / 1000);
-    let t = std::time::Instant::now();
-    for _ in 0..1000 { let _ = w.call(&i, F::Withdraw, 1, 1, 1, 1); }
-    eprintln!("withdraw refused: {:?}/call", t.elapsed() / 1000);
-    let t = std::time::Instant::now();
-    for _ in 0..1000 { let _ = w.key(&i); }
-    eprintln!("key: {:?}/call", t.elapsed() / 1000);
-    let t = std::time::Instant::now();
-    for _ in 0..1000 { let _ = last_events(&i.e); }
-    eprintln!("events: {:?}/call", t.elapsed() / 1000);
-}
-
 fn main() {
-    if std::env::var("C05_TIMING").is_ok() {
-        vh::report::quiet_panics();
-        timing();
-        return;
-    }
     main_with(
         "C05",
         "model_checking",
         "level-BFS over histories of deposit/mint/withdraw/redeem by U1,U2 (operator = owner = receiver with amounts {0,1,2,3,7,10,10^o+1,max_withdraw(+1),max_redeem(+1)}; operator≠owner through asset/share allowances and receiver≠owner with {7 | max, max+1}) and donations {1,7,10^o+1} D->vault on the real fungible-vault example over a Base asset, one world per decimals offset, seeds {empty, 3 assets donated to the empty vault, 2^k assets deposited + 2^(k-2)+3 donated with k = min(100,120-4o) so that products exceed i128}; in every step: preview/convert getters vs exact big-integer formula (and at i128::MAX, 2^100+1 in every new state), return = preview, exact asset/share/allowance movement on the named parties, rate monotone (cross-multiplied), rounding direction, maxima, event contents, acting-alone windows; from every expanded state 8 round-trip shapes x 2 users x 3 amounts as leaf probes; non-trivial = distinct (storage, window) state reached through >=1 accepted call",
         |tier: Tier, r: &mut Runner| {
+            let th = tier == Tier::Thorough;
             let offsets: Vec<u32> = tier.pick(vec![0, 1, 3, 10], (0..=10).collect());
-            let wall = tier.pick(40, 560);
-            let dd: usize = std::env::var("C05_DEEP").ok().and_then(|s| s.parse().ok()).unwrap_or(tier.pick(4, 5));
-            let wd: usize = std::env::var("C05_WIDE").ok().and_then(|s| s.parse().ok()).unwrap_or(2);
-            for o in offsets {
-                r.world(&VaultW { offset: o, deep: false, seeds: SMALL, tag: "wide" }, &Bounds::new(wd, wall));
-                r.world(&VaultW { offset: o, deep: false, seeds: HUGE, tag: "wide-huge" }, &Bounds::new(wd, wall));
-                r.world(&VaultW { offset: o, deep: true, seeds: SMALL, tag: "deep" }, &Bounds::new(dd, wall));
-                r.world(&VaultW { offset: o, deep: true, seeds: HUGE, tag: "deep-huge" }, &Bounds::new(dd - 1, wall));
+            // one wall-clock budget for the whole tier, handed to each world as what is left of it
+            // (calibration, 16 idle cores: quick ~20 s, thorough ~4.5 min)
+            let t0 = std::time::Instant::now();
+            let budget: u64 = tier.pick(42, 570);
+            let left = || budget.saturating_sub(t0.elapsed().as_secs()).max(1);
+            let tag = |a: &'static str, b: &'static str| if th { b } else { a };
+            // full alphabet, short histories
+            for &o in &offsets {
+                r.world(&VaultW { offset: o, deep: false, full: th, seeds: SMALL, tag: tag("wide", "wide-full") }, &Bounds::new(2, left()));
+                r.world(&VaultW { offset: o, deep: false, full: th, seeds: HUGE, tag: tag("wide-huge", "wide-full-huge") }, &Bounds::new(2, left()));
+            }
+            // narrow alphabet, long histories
+            for &o in &offsets {
+                let d = if th && [0, 1, 3, 10].contains(&o) { 5 } else { 4 };
+                r.world(&VaultW { offset: o, deep: true, full: false, seeds: SMALL, tag: "deep" }, &Bounds::new(d, left()));
+                r.world(&VaultW { offset: o, deep: true, full: false, seeds: HUGE, tag: "deep-huge" }, &Bounds::new(tier.pick(3, 4), left()));
             }
             if let Some(rep) = r.report() {
                 let all = [
@@ -930,7 +968,6 @@ fn main() {
                     "deposit.to-other", "mint.to-other", "withdraw.to-other", "redeem.to-other",
                     "deposit.via-operator.to-other", "mint.via-operator.to-other",
                     "withdraw.via-operator.to-other", "redeem.via-operator.to-other",
-                    "roundtrip.DR", "roundtrip.DW", "roundtrip.MR", "roundtrip.MW", "roundtrip.RD", "roundtrip.RM", "roundtrip.WD", "roundtrip.WM",
                 ];
                 rep.require(
                     &all,
@@ -945,6 +982,8 @@ fn main() {
                     "roundtrip-second-leg-accepted",
                     "roundtrip-balance-checks",
                     "view-sweeps",
+                    "roundtrip.DR executed", "roundtrip.DW executed", "roundtrip.MR executed", "roundtrip.MW executed",
+                    "roundtrip.RD executed", "roundtrip.RM executed", "roundtrip.WD executed", "roundtrip.WM executed",
                     "maxima-equal-owner's-entitlement",
                 ]);
             }
